@@ -14,6 +14,7 @@ import (
 	"encoding/json"
 	"fmt"
 	"io"
+	"net/http"
 	"net/http/httptest"
 	"os"
 	"path/filepath"
@@ -403,6 +404,44 @@ func TestVerifC13(t *testing.T) {
 		if pi%50 == 0 {
 			res.Sample(6, map[string]any{"placement": fmt.Sprint(pl), "charts": len(outputs[0])})
 		}
+	}
+	// The Cloud Storage backend against a stand-in for the service (the client library's own
+	// STORAGE_EMULATOR_HOST hook): buckets exist, no object does. A day that was never merged must be
+	// reported as not found there too.
+	if p.Mine(0) {
+		srv := httptest.NewServer(http.HandlerFunc(func(w http.ResponseWriter, r *http.Request) {
+			if strings.HasPrefix(r.URL.Path, "/storage/v1/b/") && !strings.Contains(r.URL.Path, "/o/") && !strings.HasSuffix(r.URL.Path, "/o") {
+				w.Header().Set("Content-Type", "application/json")
+				w.Write([]byte(`{"kind":"storage#bucket","name":"b"}`))
+				return
+			}
+			if strings.HasSuffix(r.URL.Path, "/o") { // object listing: empty
+				w.Header().Set("Content-Type", "application/json")
+				w.Write([]byte(`{"kind":"storage#objects","items":[]}`))
+				return
+			}
+			http.Error(w, "No such object", http.StatusNotFound)
+		}))
+		os.Setenv("STORAGE_EMULATOR_HOST", strings.TrimPrefix(srv.URL, "http://"))
+		ctx := context.Background()
+		gu, e1 := storage.NewGCSBucket(ctx, "p", "uploaded")
+		gm, e2 := storage.NewGCSBucket(ctx, "p", "merged")
+		gc, e3 := storage.NewGCSBucket(ctx, "p", "charted")
+		if e1 != nil || e2 != nil || e3 != nil {
+			res.Note("Cloud Storage leg skipped: the client could not be set up against the local stand-in (%v %v %v)", e1, e2, e3)
+		} else {
+			gw := &zzvWorld{api: &storage.API{Upload: gu, Merge: gm, Chart: gc}, cfg: tconfig.NewConfig(zzvWorkerConfig())}
+			for _, q := range []string{"date=2024-01-01", "start=2024-01-01&end=2024-01-03"} {
+				code, body := gw.chart(q)
+				res.Evaluations++
+				if code != 404 {
+					res.Violate("missing-day-not-404:gcs", fmt.Sprintf("Cloud Storage backend: chart %s over a day that was never merged is answered %d (%.80q), want 404", q, code, body), map[string]any{"query": q})
+				}
+				res.Class("gcs/missing-day")
+			}
+		}
+		os.Unsetenv("STORAGE_EMULATOR_HOST")
+		srv.Close()
 	}
 	res.States = res.Evaluations
 	res.Validated = res.Evaluations
